@@ -484,16 +484,23 @@ TCrash ==
                                                    diff |-> DiffWorld(exp, O)])>>)
      /\ l' = l + 1 /\ UNCHANGED <<st, hv, aux>>
 
+\* a torn stored-transaction file must be reported as an error: never a crash, never a value
+TTrunc ==
+  /\ IsEv("trunc")
+  /\ Check(E.panic = 0, "C06", "PartialFileIsError", E, "get_stored_tx panics on a truncated file")
+  /\ Check(E.ok = 0, "C06", "PartialFileIsError", E, "a truncated file is returned as a transaction")
+  /\ l' = l + 1 /\ UNCHANGED <<st, hv, aux>>
+
 \* ---- anything else: observe only ------------------------------------------
 Known == {"reset", "init_send", "lock", "receive", "finalize", "cancel", "post", "mine", "node_up", "node_down",
-          "refresh", "create_account", "set_active", "build_coinbase", "issue_invoice", "process_invoice", "crash"}
+          "refresh", "create_account", "set_active", "build_coinbase", "issue_invoice", "process_invoice", "crash", "trunc"}
 TOther == /\ l <= Len(Rec) /\ Rec[l].ev \notin Known
           /\ Step(hv)
 
 TInit == /\ l = 1 /\ st = [w |-> <<>>, chain |-> <<>>, pool |-> {}, body |-> <<>>, reg |-> <<>>, nrep |-> <<>>]
          /\ hv = EmptyHist({}) /\ aux = [nodeUp |-> TRUE, dirty |-> {}, pre |-> <<>>, hvpre |-> EmptyHist({}), ope |-> <<>>]
 TNext == \/ TReset \/ TInitSend \/ TLock \/ TReceive \/ TFinalize \/ TCancel \/ TPost \/ TMine \/ TNode
-         \/ TRefresh \/ TAccount \/ TBuildCoinbase \/ TIssueInvoice \/ TProcessInvoice \/ TCrash \/ TOther
+         \/ TRefresh \/ TAccount \/ TBuildCoinbase \/ TIssueInvoice \/ TProcessInvoice \/ TCrash \/ TTrunc \/ TOther
 TSpec == TInit /\ [][TNext]_tvars
 
 \* every line must have been consumed (the spec has no way to get stuck other
